@@ -106,11 +106,19 @@ def r1_traversals(ctx):
             r.inst("Ranges::try_for_each_value", "for (_, value) in v { f(value)? }")
     fn = ast.fn(PP, "populate_with_new_key", impl_self="Plurals")
     if fn is not None:
-        t = flatp(show(fn.body))
-        if has(t, "letother=self.other.populateargs,foreign_key,locale,key_path?;") and has(t, "forform,valuein&self.forms{letvalue=value.populateargs,foreign_key,locale,key_path?;forms.insert*form,value;}"):
-            r.inst("Plurals::populate_with_new_key", "other and every form populated, keyed by the same form")
+        from rules import absint
+        from rules.absint import AEval, C, CF, A, T, L
+        this = CF("Plurals", forms=L(T(C("Zero"), A("vz")), T(C("One"), A("vo")), T(C("Few"), A("vf"))), other=A("vother"), rule_type=C("Ordinal"), count_key=A("ck"))
+        v = AEval(funcs={}).run_fn(fn, [this, A("new_key"), A("args"), A("fk"), A("locale"), A("kp")])
+        good = False
+        if not isinstance(v, str) and v[0] == "ctor" and v[1] == "Ok" and v[2] and v[2][0][0] == "ctor" and v[2][0][1] == "Plurals" and v[2][0][2]:
+            f = absint.fields_of(v[2][0][2][0])
+            forms = sorted((absint.fmt(x[1][0]), absint.fmt(x[1][1])) for x in f.get("forms", ("list", ()))[1]) if f.get("forms", ("",))[0] == "list" else None
+            good = forms == [("Few", "vf.populate"), ("One", "vo.populate"), ("Zero", "vz.populate")] and f.get("other") == A("vother.populate") and f.get("count_key") == A("new_key") and f.get("rule_type") == C("Ordinal")
+        if good:
+            r.inst("Plurals::populate_with_new_key", "other and every form populated, keyed by the same form; rule type kept, count key replaced")
         else:
-            r.viol("R1:Plurals::populate_with_new_key", "not every plural form is populated under its own form", file=fn.file, line=fn.line)
+            r.viol("R1:Plurals::populate_with_new_key", "a plural {zero, one, few; other} (ordinal) is rebuilt as %s: not every form populated under its own form with the same rule type" % (v if isinstance(v, str) else absint.fmt(v)), file=fn.file, line=fn.line)
     return r
 
 
@@ -246,11 +254,22 @@ def r3_locale_consistency(ctx, prog):
     # order: resolve target & args before populate
     pop = M.call_blocks(b, r"ParsedValue::populate$")
     res = M.call_blocks(b, r"ParsedValue::resolve_foreign_key$")
-    if pop and len(res) >= 2 and all(any(b.dominates(x, p) for p in pop) or M.must_pass(b, [x], pop) for x in res[:1]):
+    # the arguments may be resolved in a loop of this body, or in a closure handed to an iterator method (try_for_each ..)
+    closure_sites = []
+    for cb in prog.closures_of(b):
+        if M.call_blocks(cb, r"ParsedValue::resolve_foreign_key$"):
+            for i2, j2, s2 in b.assigns():
+                if s2["rv"]["k"] == "Aggregate" and s2["rv"].get("agg") == "Closure" and s2["rv"].get("def") == cb.name:
+                    cl_local = s2["place"]["l"]
+                    for ci, ct in b.calls():
+                        if any((op_place(a) or {}).get("l") == cl_local for a in ct["args"]) and re.search(r"Iterator::(try_for_each|for_each|map|try_fold)$", callee_name(ct) or ""):
+                            closure_sites.append(ci)
+    if pop and (len(res) >= 2 or (len(res) >= 1 and closure_sites)) and all(any(b.dominates(x, p) for p in pop) or M.must_pass(b, [x], pop) for x in res[:1]):
         # the args loop: a loop containing a resolve call dominates populate
         in_loop = [x for x in res if M.loop_of(b, x)]
         outside = [x for x in res if not M.loop_of(b, x)]
-        ok = bool(in_loop) and bool(outside) and all(b.dominates(x, pop[0]) for x in outside) and all(b.dominates(M.loop_of(b, x)[0], pop[0]) for x in in_loop)
+        ok = (bool(in_loop) or bool(closure_sites)) and bool(outside) and all(b.dominates(x, pop[0]) for x in outside) and all(b.dominates(M.loop_of(b, x)[0], pop[0]) for x in in_loop) \
+            and all(b.dominates(c, pop[0]) for c in closure_sites)
         if ok:
             r.inst("resolve_foreign_key_inner#order", "target resolved, then every argument (loop over args.values()), then populate")
         else:
@@ -260,7 +279,9 @@ def r3_locale_consistency(ctx, prog):
     # stored
     sets = M.agg_blocks(b, "parsed_value::ForeignKey", "Set")
     rep = M.call_blocks(b, r"std::mem::replace$")
-    if sets and rep and pop and b.dominates(pop[0], sets[0]):
+    set_locals = {s2["place"]["l"] for i2, j2, s2 in b.aggregates("parsed_value::ForeignKey", "Set")}
+    stores = [i2 for i2, j2, s2 in b.assigns() if s2["place"]["p"] and s2["rv"]["k"] == "Use" and (op_place(s2["rv"]["ops"][0]) or {}).get("l") in set_locals]
+    if sets and (rep or stores) and pop and b.dominates(pop[0], sets[0]):
         r.inst("resolve_foreign_key_inner#store", "ForeignKey::Set(populated value) replaces the cell content")
     else:
         r.viol("R3:resolve_foreign_key_inner#store", "the populated value is not stored as ForeignKey::Set", file=b.file, line=b.line)
@@ -276,11 +297,28 @@ def r3_locale_consistency(ctx, prog):
     else:
         r.inst("ForeignKey::new", "push_path(locale, current_key_path) on every path")
     fn = ctx.ast.fn(PM, "resolve_foreign_keys")
-    t = flatp(show(fn.body)) if fn else ""
-    if not same(t, '{forlocale,value_pathinforeign_keys_paths{letvalue=get_value_at_pathvalues,&locale,&value_path.unwrap_at"resolve_foreign_keys_1";value.resolve_foreign_keyvalues,&locale,default_locale,&value_path?;};Ok}'):
-        r.viol("R3:resolve_foreign_keys#all-paths", "resolve_foreign_keys no longer resolves every recorded (locale, path) in its own locale: %s" % t[:200], file=PM)
+    if fn is None:
+        r.missing("resolve_foreign_keys")
     else:
-        r.inst("resolve_foreign_keys", "for every recorded (locale, path): value.resolve_foreign_key(values, &locale, default_locale, &path)")
+        from rules import absint
+        from rules.absint import AEval, C, A, T, L, UNIT
+
+        def S(x):
+            return ("str", x)
+        log = []
+
+        def resolve(rv, a):
+            log.append((rv,) + tuple(a))
+            return C("Ok", UNIT)
+        ev = AEval(funcs={}, builtins={"resolve_foreign_key": resolve, "unwrap_at": lambda rv, a: (rv[2][0] if rv[0] == "ctor" and rv[1] in ("Some", "Ok") else rv)})
+        ev.path_builtins = {"get_value_at_path": lambda a: C("Some", A("value@(%s,%s)" % (absint.fmt(a[1]), absint.fmt(a[2]))))}
+        paths = L(T(S("fr"), A("p1")), T(S("en"), A("p2")), T(S("fr"), A("p3")))
+        v = ev.run_fn(fn, [A("values"), S("en"), paths])
+        want = [(A("value@(fr,p1)"), A("values"), S("fr"), S("en"), A("p1")), (A("value@(en,p2)"), A("values"), S("en"), S("en"), A("p2")), (A("value@(fr,p3)"), A("values"), S("fr"), S("en"), A("p3"))]
+        if v == C("Ok", UNIT) and log == want:
+            r.inst("resolve_foreign_keys", "for every recorded (locale, path): value.resolve_foreign_key(values, &locale, default_locale, &path)")
+        else:
+            r.viol("R3:resolve_foreign_keys#all-paths", "resolve_foreign_keys no longer resolves every recorded (locale, path) in its own locale: result %s, calls %s" % (v if isinstance(v, str) else absint.fmt(v), [[absint.fmt(x) for x in c] for c in log]), file=PM)
     return r
 
 
